@@ -34,7 +34,12 @@ on `Model/CacheGlue.lean` (`cfgReal`):
              `fault` = `-` | `i` (the connection is cut inside the index body) | `<k>` (inside the body of key `k`);
              an optional fifth field lists the configured repositories (`0`, `0+1`; absent = `0`): repository `r` has
              index URL and entry directory `50·r`; repository 1 (`https://repob.test`) serves ONE index revision (body and
-             ETag 200) that offers a newer `app`, so an image built over `0+1` is named `ok:<rev>b:…`
+             ETag 200) that offers a newer `app`, so an image built over `0+1` is named `ok:<rev>b:…`; an optional sixth
+             field is the KEY EPOCH of repository 0 during the build: the repository publishes keys through key discovery
+             (`apk-configuration` → JWKS; the key set of epoch `e` is body `e` of the JWKS URL; a rotation = the next epoch),
+             the outcome of a build then ends in `+d=<e>` (the discovered key files are exactly the set of epoch `e`, byte
+             for byte), `+d=-` (none) or `+d=X`; discovery goes through the branch of `RoundTrip` without a validator
+             (`Model.discover`, `storesReal`), remembered per process by `options.Default.SharedCache` (mode `default`)
 * `opts`     (optional seventh field, `,`-separated) `noetag`: the server sends no ETag for the index of repository 0
              (only `Last-Modified`): nothing is looked up or stored for it (`fetchNoEtag`); `vers=a.b.c/a.b.c/…`: the
              versions of base, lib, app in revision 0, 1, … of repository 0 (repository 1's app is version 1000): an
@@ -47,7 +52,10 @@ on `Model/CacheGlue.lean` (`cfgReal`):
 Answer: impl = the model's directory and outcomes (the outcome of an offline build that asks for a key whose entry
 directory is shared with another key is `sched`: which entry is the newest depends on the order in which the
 concurrent key downloads of earlier builds finished), verdict = the oracle on Go's output, class `F19d` iff the
-history contains such an offline build or a keyring with two keys of one directory under one ETag value.
+history contains such an offline build or a keyring with two keys of one directory under one ETag value; class `F19g`
+for `fail:disc-memo:` (a `default` build answered from the key-discovery memo of its process after a rotation), `F19h`
+for `fail:disc-offline:` (an offline build that goes on without the discovered keys); any other failure about the
+discovered key set is `fail:disc:` and never attributed to a finding.  Failures that are no finding are reported first.
 -/
 namespace Apko.Driver.Cache
 open Apko.Cache
@@ -274,12 +282,15 @@ structure GKey where
   dir : Nat
   etag : Nat
 
+abbrev GBuildEpoch := Option Nat
+
 structure GBuild where
   mode : String
   rev : Nat
   keys : List Nat
   fault : String
   repos : List Nat := [0]
+  epoch : Option Nat := none
 
 def parseKeys (s : String) : List GKey :=
   if s.isEmpty then [] else
@@ -290,9 +301,11 @@ def parseKeys (s : String) : List GKey :=
 
 def parseBuild (s : String) : Option GBuild :=
   match s.splitOn ":" with
-  | [m, r, ks, f] => some ⟨m, r.toNat!, if ks.isEmpty then [] else (ks.splitOn "+").map String.toNat!, f, [0]⟩
+  | [m, r, ks, f] => some ⟨m, r.toNat!, if ks.isEmpty then [] else (ks.splitOn "+").map String.toNat!, f, [0], none⟩
   | [m, r, ks, f, rs] => some ⟨m, r.toNat!, if ks.isEmpty then [] else (ks.splitOn "+").map String.toNat!, f,
-      if rs.isEmpty then [0] else (rs.splitOn "+").map String.toNat!⟩
+      if rs.isEmpty then [0] else (rs.splitOn "+").map String.toNat!, none⟩
+  | [m, r, ks, f, rs, ep] => some ⟨m, r.toNat!, if ks.isEmpty then [] else (ks.splitOn "+").map String.toNat!, f,
+      if rs.isEmpty then [0] else (rs.splitOn "+").map String.toNat!, ep.toNat?⟩
   | _ => none
 
 def parseHistory (s : String) : List (List GBuild) :=
@@ -313,7 +326,7 @@ def contentTok (r : Body × Bool) : String := if r.2 then toString r.1 else "P"
 
 /-- the outcome of a build from what its requests returned: an error of any request fails the build; the index
 must be complete (gzip trailer, signature) and the file of the signing key (key 0) must hold that key -/
-def outcomeOfIdx (keys : List Nat) (kres : List Res) (idx : Option (List (Url × Body))) : String :=
+def outcomeOfIdx (keys : List Nat) (kres : List Res) (idx : Option (List (Url × Body))) (disc : Option String := none) : String :=
   if kres.any (·.isNone) then "err" else
   match idx with
   | none => "err"
@@ -325,13 +338,24 @@ def outcomeOfIdx (keys : List Nat) (kres : List Res) (idx : Option (List (Url ×
       let pairs := (keys.zip kres).filterMap fun (k, r) => r.map fun x => (k, contentTok x)
       if pairs.any (fun p => p.1 = 0 && p.2 != "0") then "err" else
       let sorted := (sortNat keys).filterMap fun k => (pairs.find? (·.1 = k)).map fun p => s!"{p.1}={p.2}"
-      s!"ok:{ib - 100}{if l.any (·.1 = repoUrl 1) then "b" else ""}:" ++ "+".intercalate sorted
+      s!"ok:{ib - 100}{if l.any (·.1 = repoUrl 1) then "b" else ""}:" ++ "+".intercalate (sorted ++ (disc.map fun d => s!"d={d}").toList)
 
 def outcomeOf (keys : List Nat) (kres : List Res) (ires : Res) : String :=
   outcomeOfIdx keys kres ((parseRes ires).map fun b => [(0, b)])
 
-def identityOutcome (rev : Nat) (keys : List Nat) (repos : List Nat := [0]) : String :=
-  s!"ok:{rev}{if repos.contains 1 then "b" else ""}:" ++ "+".intercalate ((sortNat keys).map fun k => s!"{k}={k}")
+def identityOutcome (rev : Nat) (keys : List Nat) (repos : List Nat := [0]) (disc : Option String := none) : String :=
+  s!"ok:{rev}{if repos.contains 1 then "b" else ""}:" ++
+    "+".intercalate (((sortNat keys).map fun k => s!"{k}={k}") ++ (disc.map fun d => s!"d={d}").toList)
+
+/-- the URLs of key discovery in the model of the branch without a validator: the discovery document, the key set -/
+def confUrl : Url := 0
+def jwksUrl : Url := 1
+
+/-- what a discovery returned, as the harness names it -/
+def discTok (b : GBuildEpoch) (r : Option Body) : Option String :=
+  b.map fun _ => match r with
+    | some e => toString e
+    | none => "-"
 
 /-- an offline build whose answer depends on the order in which earlier concurrent key downloads finished: it
 asks for a key whose entry directory is shared with another key (finding F19d) -/
@@ -349,6 +373,9 @@ structure GSim where
   nextCache : Nat := 1
   outs : List String := []
   pkgs : List (Nat × Nat) := []   -- the packages (number, version) earlier online builds left in the cache
+  pst : PSt := {}                  -- key discovery: the server and the files below the URL paths
+  discMemo : Option Body := none   -- `options.Default.SharedCache.discoverKeys` of the running process
+  notes : List String := []        -- per build: `memo:<e>` (discovery answered from the memo), `offdisc`, or empty
 
 def parseVers (opts : String) : List (List Nat) :=
   match (opts.splitOn ",").find? (·.startsWith "vers=") with
@@ -388,34 +415,52 @@ def runBuild (cfg : Cfg) (world : List GKey) (noetag : Bool) (vers : List (List 
   -- the repository serves revision `rev` during this build
   let st := if sim.st.cur 0 = some (100 + b.rev, 100 + b.rev) then sim.st
             else step cfg sim.st (.publish 0 (100 + b.rev) (100 + b.rev))
+  -- … and the key set of epoch `epoch` through key discovery
+  let pst := match b.epoch with
+    | some e =>
+      let p := if sim.pst.cur confUrl = some 0 then sim.pst else pstep storesReal sim.pst (.publish confUrl 0)
+      if p.cur jwksUrl = some e then p else pstep storesReal p (.publish jwksUrl e)
+    | none => sim.pst
+  let sim := { sim with pst := pst }
   let cutOf := fun (k : Nat) => b.fault == toString k
   if b.mode == "none" then
     let kres := b.keys.map fun k => direct st (k + 1)
     let r := onlineIndexes cfg noetag 0 false false false b.repos st
-    { sim with st := r.1, outs := sim.outs ++ [outcomeOfIdx b.keys kres r.2] }
+    let d := (plainDirect pst confUrl).bind fun _ => plainDirect pst jwksUrl
+    { sim with st := r.1, outs := sim.outs ++ [outcomeOfIdx b.keys kres r.2 (discTok b.epoch d)], notes := sim.notes ++ [""] }
   else if b.mode == "off" then
     let kres := b.keys.map fun k => fetchOffline cfg st (k + 1)
     -- every configured repository is remote (https)
     let idx := offlineIndexes skipReal cfg st (fun _ => true) (fun _ => .notExist) (b.repos.map repoUrl)
-    let o := outcomeOfIdx b.keys kres idx
+    -- (an offline build is given a cache object of its own: no remembered discovery)
+    let d := discoverOffline pst none confUrl jwksUrl
+    let o := outcomeOfIdx b.keys kres idx (discTok b.epoch d)
     -- (the resolution succeeded; every package of the image must be in the cache as well)
     let o := if o != "err" && !(imagePkgs vers idx).all sim.pkgs.contains then "err" else o
     let out := if schedDependent world b then "sched" else o
-    { sim with st := st, outs := sim.outs ++ [out] }
+    { sim with st := st, outs := sim.outs ++ [out], notes := sim.notes ++ [if b.epoch.isSome && d.isNone then "offdisc" else ""] }
   else
     let (c, memo, next) := if b.mode == "default" then (0, false, sim.nextCache) else (sim.nextCache, true, sim.nextCache + 1)
+    -- key discovery comes first (InitDB), through the cache object of the build
+    let dm := if b.mode == "default" then sim.discMemo else none
+    let dr := if b.epoch.isSome then discover storesReal pst dm confUrl jwksUrl else (pst, none)
+    let note := match dm, b.epoch with
+      | some k, some e => if k != e then s!"memo:{k}" else ""
+      | _, _ => ""
+    let sim := { sim with pst := dr.1, discMemo := if b.mode == "default" && dr.2.isSome then dr.2 else sim.discMemo,
+                          notes := sim.notes ++ [note] }
     let (st1, kres) := fetchAll cfg c memo (b.keys.map fun k => (k + 1, cutOf k)) st
     -- the keyring is initialised first (all entries are requested, concurrently); the indexes only after that
     if kres.any (·.isNone) then { sim with st := st1, nextCache := next, outs := sim.outs ++ ["err"] }
     else
       let r := onlineIndexes cfg noetag c memo true (b.fault == "i") b.repos st1
-      let o := outcomeOfIdx b.keys kres r.2
-      { st := r.1, nextCache := next, outs := sim.outs ++ [o],
-        pkgs := if o != "err" then sim.pkgs ++ imagePkgs vers r.2 else sim.pkgs }
+      let o := outcomeOfIdx b.keys kres r.2 (discTok b.epoch dr.2)
+      let pk := if o != "err" then sim.pkgs ++ imagePkgs vers r.2 else sim.pkgs
+      { sim with st := r.1, nextCache := next, outs := sim.outs ++ [o], pkgs := pk }
 
 def runProc (cfg : Cfg) (world : List GKey) (noetag : Bool) (vers : List (List Nat)) (sim : GSim) (p : List GBuild) : GSim :=
   let sim := p.foldl (runBuild cfg world noetag vers) sim
-  { sim with st := step cfg sim.st .exit }
+  { sim with st := step cfg sim.st .exit, discMemo := none }
 
 def dirTokens (st : St) : List String :=
   st.files.flatMap fun f =>
@@ -450,30 +495,50 @@ def entryOk (world : List GKey) (t : String) : Bool :=
 connection may fail instead); offline: an error, or what the model's offline build gives (`impls`; by
 `offline_authentic_partial` complete bodies the server served under the very URLs asked for) — where the
 model makes no prediction (`sched`) the cache-less image of a revision an earlier build brought into the cache -/
-def outcomesVerdict (noetag : Bool) (builds : List GBuild) (outs impls : List String) : Option String :=
-  let rec go (bs : List GBuild) (os : List String) (ms : List String) (seen : List Nat) (seenB : Bool) (i : Nat) : Option String :=
+def outcomesVerdict (noetag : Bool) (builds : List GBuild) (outs impls : List String) (notes : List String := []) : Option String :=
+  let rec go (bs : List GBuild) (os : List String) (ms : List String) (ns : List String) (seen : List Nat) (seenE : List Nat)
+      (seenB : Bool) (soft : Option String) (i : Nat) : Option String :=
     match bs, os with
-    | [], [] => none
+    | [], [] => soft
     | b :: bs', o :: os' =>
-      let want := identityOutcome b.rev b.keys b.repos
+      let want := identityOutcome b.rev b.keys b.repos (b.epoch.map toString)
       let m := ms.head?.getD "err"
+      let note := ns.head?.getD ""
       if b.mode == "off" then
         -- the cache-less image of a repository state that earlier builds brought into the cache: an index revision of
-        -- repository 0 and, when repository 1 is configured, ITS index as well — never an image over fewer repositories
-        let cachedImage := (seenB || !b.repos.contains 1) && seen.any (fun r => o == identityOutcome r b.keys b.repos)
+        -- repository 0 and, when repository 1 is configured, ITS index as well — never an image over fewer repositories —
+        -- and, with key discovery, the key set of an epoch an earlier build over the cache saw
+        let imageWith := fun (d : Option String) => (seenB || !b.repos.contains 1) && seen.any (fun r => o == identityOutcome r b.keys b.repos d)
+        let cachedImage := match b.epoch with
+          | none => imageWith none
+          | some _ => seenE.any fun e => imageWith (some (toString e))
+        let mOk := m == "sched" || o == m || note == "offdisc"
         -- (whatever the keyring looks like: over a repository that was never cached the only legal outcome is an error)
         if o != "err" && b.repos.contains 1 && !seenB then
           some s!"repos:build{i}:offline:{o}:a-configured-remote-repository-was-never-cached:want:err"
-        else if o == "err" || (m != "sched" && o == m && cachedImage) || (m == "sched" && cachedImage) then go bs' os' ms.tail seen seenB (i + 1)
-        else some s!"build{i}:offline:{o}:want:err-or-{if m == "sched" then "cache-less-image-of-a-cached-revision" else if cachedImage then m else "the-image-over-all-configured-repositories"}"
+        else if o == "err" || (mOk && cachedImage) then go bs' os' ms.tail ns.tail seen seenE seenB soft (i + 1)
+        else if note == "offdisc" && (m == "sched" || o == m) && imageWith (some "-") then
+          -- the image of a cached revision WITHOUT the discovered keys: the offline discovery failed and was only logged
+          go bs' os' ms.tail ns.tail seen seenE seenB
+            (soft.orElse fun _ => some s!"disc-offline:build{i}:offline:{o}:the-discovered-keys-are-missing:want:err-or-the-keys-of-a-cached-epoch") (i + 1)
+        else some s!"{if b.epoch.isSome then "disc:" else ""}build{i}:offline:{o}:want:err-or-{if m == "sched" then "cache-less-image-of-a-cached-revision" else if cachedImage then m else "the-image-over-all-configured-repositories"}"
       else
         -- (an index that is served without an ETag is never stored)
         let seen' := if b.mode != "none" && b.fault != "i" && !noetag then b.rev :: seen else seen
         let seenB' := seenB || (b.mode != "none" && b.repos.contains 1)
-        if o == want || (b.fault != "-" && o == "err") then go bs' os' ms.tail seen' seenB' (i + 1)
+        let seenE' := match b.epoch with
+          | some e => if b.mode != "none" then e :: seenE else seenE
+          | none => seenE
+        if o == want || (b.fault != "-" && o == "err") then go bs' os' ms.tail ns.tail seen' seenE' seenB' soft (i + 1)
+        else if b.epoch.isSome && o == identityOutcome b.rev b.keys b.repos ((note.dropPrefix? "memo:").map (·.toString)) && o == m then
+          -- the keys the process remembered from before the rotation
+          go bs' os' ms.tail ns.tail seen' seenE' seenB'
+            (soft.orElse fun _ => some s!"disc-memo:build{i}:{b.mode}:{o}:want:{want}") (i + 1)
+        else if b.epoch.isSome && (identityOutcome b.rev b.keys b.repos none).isPrefixOf o then
+          some s!"disc:build{i}:{b.mode}:{o}:the-key-files-are-not-those-the-repository-publishes-now:want:{want}"
         else some s!"build{i}:{b.mode}:{o}:want:{want}"
     | _, _ => some "outcome-count"
-  go builds outs impls [] false 0
+  go builds outs impls notes [] [] false none 0
 
 def handle (keys history goDir goOutcomes goCwd : String) (opts : String := "") : String :=
   let world := parseKeys keys
@@ -488,14 +553,16 @@ def handle (keys history goDir goOutcomes goCwd : String) (opts : String := "") 
   let builds := procs.flatten
   let verdict :=
     if !goCwd.isEmpty then s!"fail:file-created-in-working-directory:{goCwd}"
-    else match outcomesVerdict noetag builds outs sim.outs with
+    else match outcomesVerdict noetag builds outs sim.outs sim.notes with
       | some w => "fail:" ++ w
       | none =>
         match gtoks.find? (fun t => !entryOk world t) with
         | some t => s!"fail:advertised-entry-is-not-the-body-served-under-its-etag:{t}"
         | none => "pass"
   -- (a build over fewer repositories than configured has nothing to do with the key directories of F19d)
-  let cls := if builds.any (fun b => schedDependent world b || sameEtagPair world b) && !verdict.startsWith "fail:repos:" then "F19d" else "unlisted"
+  let cls := if verdict.startsWith "fail:disc-memo:" then "F19g" else if verdict.startsWith "fail:disc-offline:" then "F19h"
+             else if verdict.startsWith "fail:disc:" then "unlisted"
+             else if builds.any (fun b => schedDependent world b || sameEtagPair world b) && !verdict.startsWith "fail:repos:" then "F19d" else "unlisted"
   impl ++ "\t" ++ verdict ++ "\t" ++ cls
 
 end Glue
